@@ -552,7 +552,23 @@ def _chr(sx, args, kw, st, node):
     return ok(st, Val(V.Str, z3.StrFromCode(v)))
 
 
+def _reversed(sx, args, kw, st, node):
+    kind, payload = iter_elems(sx, args[0], st, node)[:2]
+    if kind == "conc":
+        return ok(st, Conc(tuple(reversed(payload))))
+    if kind == "list":
+        t = payload.ty
+        r = t.fresh(fresh_name("reversed"))
+        i = z3.Int(fresh_name("rv"))
+        n = t.n(payload.term)
+        st.assume(t.n(r.term) == n)
+        st.assume(z3.ForAll([i], z3.Implies(z3.And(i >= 0, i < n), t.at(r.term, i) == t.at(payload.term, n - 1 - i))))
+        return ok(st, r)
+    raise Unsupported("reversed() of %s" % kind, node)
+
+
 BUILTIN_FUNCS = {
+    "reversed": _reversed,
     "chr": _chr,
     "dict": _dict_ctor,
     "float": _float,
@@ -598,7 +614,11 @@ def hexchars(term, lower_only=True):
 
 def call_method(sx, obj, attr, args, kwargs, st, node):
     B = _B()
-    args = [sx.lift(a) if isinstance(a, Conc) and not isinstance(a.v, (tuple, dict, Exc)) and not hasattr(a.v, "__pyvc_call__") else a for a in args]
+    def _lift(a):
+        if isinstance(a, Conc) and isinstance(a.v, (bool, int, float, str, bytes, type(None))):
+            return sx.lift(a)
+        return a
+    args = [_lift(a) for a in args]
     if isinstance(obj, Conc) and isinstance(obj.v, dict):
         d = obj.v
         if attr == "get":
@@ -1048,9 +1068,12 @@ def fstring(sx, node, st):
         else:
             cls = classes_of(sx, terms, s)
             r = Val(V.Str, z3.Concat(*terms))
-            if all(c is not None for c in cls) and not sx.spec_mode:
+            if all(c is not None for c in cls):
                 # derived fact: the concatenation lies in the concatenation of the parts' languages
-                sx.with_class(r, z3.Concat(*cls), s)
+                if sx.spec_mode:
+                    r.aux = {"re": z3.Concat(*cls)}
+                else:
+                    sx.with_class(r, z3.Concat(*cls), s)
             out.append(R(s, r))
     return out
 
@@ -1386,6 +1409,11 @@ class OpaqueIter:
 
     def has_next(self, st, k):
         return z3.Bool(fresh_name("hasnext"))
+
+    def on_exit(self, sx, st):
+        # the iterable's contract may say what is known once it is exhausted (e.g. every element was yielded)
+        if hasattr(self.spec, "exhausted"):
+            self.spec.exhausted(sx, st)
 
     def bind(self, sx, stmt, st, k):
         outs = []
